@@ -12,6 +12,9 @@ pub enum Strategy {
     Reader(History),
     /// search_path on a real (tmpfs) file, with or without memory maps.
     Path { mmap: bool },
+    /// search_path on an existing special file (e.g. under /proc, where files
+    /// report a size of 0 but have content and cannot be mapped).
+    Special { path: String, mmap: bool },
 }
 
 impl Strategy {
@@ -20,6 +23,7 @@ impl Strategy {
             Strategy::Slice => "slice".into(),
             Strategy::Reader(h) => format!("reader/{}", h.style.name()),
             Strategy::Path { mmap } => format!("path/{}", if *mmap { "mmap" } else { "read" }),
+            Strategy::Special { path, mmap } => format!("special:{path}/{}", if *mmap { "mmap" } else { "read" }),
         }
     }
     pub fn kind(&self) -> &'static str {
@@ -27,6 +31,7 @@ impl Strategy {
             Strategy::Slice => "slice",
             Strategy::Reader(_) => "reader",
             Strategy::Path { .. } => "path",
+            Strategy::Special { .. } => "special-file",
         }
     }
     pub fn to_json(&self) -> Value {
@@ -34,12 +39,14 @@ impl Strategy {
             Strategy::Slice => json!({"type": "slice"}),
             Strategy::Reader(h) => json!({"type": "reader", "history": h.to_json()}),
             Strategy::Path { mmap } => json!({"type": "path", "mmap": mmap}),
+            Strategy::Special { path, mmap } => json!({"type": "special", "path": path, "mmap": mmap}),
         }
     }
     pub fn from_json(v: &Value) -> Strategy {
         match v["type"].as_str().unwrap_or("slice") {
             "reader" => Strategy::Reader(History::from_json(&v["history"])),
             "path" => Strategy::Path { mmap: v["mmap"].as_bool().unwrap_or(false) },
+            "special" => Strategy::Special { path: v["path"].as_str().unwrap_or("").into(), mmap: v["mmap"].as_bool().unwrap_or(false) },
             _ => Strategy::Slice,
         }
     }
@@ -104,7 +111,7 @@ fn run_inner(case: &Case, knobs: &Knobs, strat: &Strategy, inject: Option<(usize
     };
     let matcher = build_matcher(case).expect("matcher");
     let mut k = *knobs;
-    if let Strategy::Path { mmap } = strat {
+    if let Strategy::Path { mmap } | Strategy::Special { mmap, .. } = strat {
         k.mmap = *mmap;
     }
     let mut searcher = build_searcher(&case.cfg, &k);
@@ -121,6 +128,7 @@ fn run_inner(case: &Case, knobs: &Knobs, strat: &Strategy, inject: Option<(usize
             std::fs::write(&p, &case.data).expect("write haystack");
             (searcher.search_path(&matcher, &p, &mut sink), vec![], 0, false)
         }
+        Strategy::Special { path, .. } => (searcher.search_path(&matcher, path, &mut sink), vec![], 0, false),
     };
     RunOut {
         res: res.map_err(|e| (e.kind(), e.to_string())),
